@@ -69,3 +69,19 @@ Definition merge_spec (how:Z) (lkeys rkeys:list (list Z)) (lcols rcols:frame) (l
   let pairs := join_pairs how (key_rows lkeys llen) (key_rows rkeys rlen) in
   map (fun f => (spec_name (fst f) (frame_names rcols) lsuf, gather_col (snd f) (map fst pairs))) lcols ++
   map (fun f => (spec_name (fst f) (frame_names lcols) rsuf, gather_col (snd f) (map snd pairs))) rcols.
+
+(* ---- extension E4: the shape of the destination, as separate statements -------------------------
+   merge_pairs          the (left row | none, right row | none) list merge_spec gathers through
+   dest_keys            the key of each destination row of the ordered path (single key column): read on the
+                        side that is never `none` (left for left/inner, right for right); where both sides are
+                        present the two keys are equal (Proofs/MergeShape.v: merge_pairs_keys_agree) *)
+Definition merge_pairs (how:Z) (lkeys rkeys:list (list Z)) : list (option Z * option Z) :=
+  let llen := match lkeys with k :: _ => len k | [] => 0 end in
+  let rlen := match rkeys with k :: _ => len k | [] => 0 end in
+  join_pairs how (key_rows lkeys llen) (key_rows rkeys rlen).
+
+Definition dest_keys (how:Z) (lk rk:list Z) : list Z :=
+  map (fun p => match (if how =? 1 then snd p else fst p) with
+                | Some i => nthZ (if how =? 1 then rk else lk) i
+                | None => 0
+                end) (merge_pairs how [lk] [rk]).
